@@ -1,1 +1,499 @@
-// harnesses for file (included into /repo/src/file.rs under cfg(kani))
+// Harnesses for src/file.rs (C02, C04, C11, C12, C13, C14, C18). Included as `crate::file::verif` under cfg(kani).
+//
+// One STEP of one file operation from an arbitrary state that satisfies the File representation invariant
+//     Inv: offset <= size, chain length = ceil(size / cluster),
+//          current_cluster = None            if offset == 0
+//                          = chain[(offset-1) / cluster] otherwise ("previous cluster" at a boundary)
+// and the step is shown to (a) behave like a byte array with a cursor and (b) re-establish Inv, so sequences of
+// operations of any length are covered by induction. The cluster INDEX of the cursor is concrete per harness
+// (case split); the position inside the cluster, the file size inside its last cluster, the buffer length and the
+// buffer contents are symbolic. The FAT is a real window of a windowed device; file payload is not stored: one
+// arbitrary watched device address tracks it exactly (sound because the library never branches on payload bytes).
+use super::*;
+use crate::dir_entry::verif::{editor, editor_state, entry_raw_times, entry_size_cluster, file_entry};
+use crate::fs::verif::{fs_pending, mk_fs_plain, Fs, Geo};
+use crate::fs::FatType;
+use crate::time::{Date, DateTime, Time};
+use crate::verif_support::dev::{WinDev, FATW};
+use crate::verif_support::spec;
+
+const CS: u32 = 512;
+const ENTRY_POS: u64 = 0x1_0000_0000 + 64; // where the file's directory entry lives (outside every window)
+
+/// Clock whose value is chosen by the solver.
+#[derive(Debug, Clone, Copy)]
+pub(crate) struct SymClock { pub now: DateTime }
+impl TimeProvider for SymClock {
+    fn get_current_date(&self) -> Date { self.now.date }
+    fn get_current_date_time(&self) -> DateTime { self.now }
+}
+pub(crate) fn any_clock() -> SymClock { SymClock { now: crate::dir_entry::verif::any_valid_datetime() } }
+
+fn w(ft: FatType) -> u8 { match ft { FatType::Fat12 => 0, FatType::Fat16 => 1, FatType::Fat32 => 2 } }
+
+/// The file's chain: clusters 2 -> 3 -> 5 (deliberately not contiguous); cluster 4 belongs to somebody else;
+/// 6 and 7 are free. `m` = number of clusters the file owns (0..=3).
+const CHAIN: [u32; 3] = [2, 3, 5];
+fn chain_table(ft: FatType, m: usize) -> [u8; FATW] {
+    let mut t = [0u8; FATW];
+    let wd = w(ft);
+    spec::set_raw(wd, &mut t, 0, 0x0FFF_FFF8);
+    spec::set_raw(wd, &mut t, 1, 0x0FFF_FFFF);
+    let mut i = 0;
+    while i < m {
+        let v = if i + 1 < m { CHAIN[i + 1] } else { spec::eoc_written(wd) };
+        spec::set_raw(wd, &mut t, CHAIN[i], v);
+        i += 1;
+    }
+    spec::set_raw(wd, &mut t, 4, spec::eoc_written(wd));
+    t
+}
+
+fn geo(ft: FatType) -> Geo { Geo::small(ft, 6) }
+
+fn mk_dev(ft: FatType, m: usize) -> WinDev {
+    let g = geo(ft);
+    let mut dev = crate::fs::verif::win_for(&g);
+    dev.limit = u64::MAX; // the entry position is outside the tiny volume; volume bounds are checked via cluster offsets
+    dev.dir_base = 1u64 << 62; // no directory window here (on FAT32 the root directory would alias cluster 2)
+    dev.fat0 = chain_table(ft, m);
+    dev.fat1 = dev.fat0;
+    dev
+}
+
+/// Cursor cluster for "cluster index k" (concrete, so that FAT lookups made by the code under test stay concrete).
+fn cur_of(k: usize) -> Option<u32> {
+    if k == usize::MAX { None } else { Some(CHAIN[k]) }
+}
+
+/// All 32 bytes equal, checked at one arbitrary index (no comparison loop to unwind).
+fn assert_same(a: &[u8; FATW], b: &[u8; FATW]) {
+    let i: usize = kani::any();
+    kani::assume(i < FATW);
+    assert!(a[i] == b[i]);
+}
+
+/// Symbolic size consistent with a chain of m clusters; symbolic offset whose "current cluster index" is k
+/// (k == usize::MAX means offset 0).
+fn any_size(m: usize) -> u32 {
+    let size: u32 = kani::any();
+    if m == 0 { kani::assume(size == 0); } else { kani::assume(size > (m as u32 - 1) * CS && size <= m as u32 * CS); }
+    size
+}
+fn any_offset(k: usize, size: u32) -> u32 {
+    if k == usize::MAX { return 0; }
+    let off: u32 = kani::any();
+    kani::assume(off > k as u32 * CS && off <= (k as u32 + 1) * CS && off <= size);
+    off
+}
+
+fn mk_file<'a, TP>(fs: &'a Fs<WinDev, TP>, m: usize, k: usize, size: u32, offset: u32) -> File<'a, WinDev, TP, crate::fs::LossyOemCpConverter> {
+    let first = if m == 0 { None } else { Some(CHAIN[0]) };
+    File {
+        first_cluster: first,
+        current_cluster: cur_of(k),
+        offset,
+        entry: Some(editor(file_entry(first.unwrap_or(0), size), ENTRY_POS)),
+        fs,
+    }
+}
+
+fn inv_holds<TP>(f: &File<WinDev, TP, crate::fs::LossyOemCpConverter>, chain: &[u32], size: u32) -> bool {
+    let e = match f.entry { Some(ref e) => e, None => return false };
+    let (data, pos, _) = editor_state(e);
+    let (esize, lo, hi) = entry_size_cluster(data);
+    if esize != size || pos != ENTRY_POS { return false; }
+    let first = if chain.is_empty() { 0 } else { chain[0] };
+    if (lo as u32 | ((hi as u32) << 16)) != first { return false; }
+    if f.first_cluster != if chain.is_empty() { None } else { Some(chain[0]) } { return false; }
+    if f.offset > size { return false; }
+    let cur = if f.offset == 0 { None } else { Some(chain[((f.offset - 1) / CS) as usize]) };
+    f.current_cluster == cur
+}
+
+// ------------------------------------------------------------------------------------------- read (C02, C13, C18)
+
+fn read_check(ft: FatType, m: usize, k: usize, update_accessed: bool) {
+    let g = geo(ft);
+    let mut dev = mk_dev(ft, m);
+    dev.watch_addr = kani::any();
+    dev.watch_val = kani::any();
+    let (wa, wv) = (dev.watch_addr, dev.watch_val);
+    let clock = any_clock();
+    let fs = core::mem::ManuallyDrop::new(mk_fs_plain(dev, &g, clock, update_accessed));
+    let size = any_size(m);
+    let off = any_offset(k, size);
+    let mut f = core::mem::ManuallyDrop::new(mk_file(&*fs, m, k, size, off));
+    let len: usize = kani::any();
+    kani::assume(len <= 600);
+    let mut buf = [0u8; 600];
+    let r = f.read(&mut buf[..len]);
+    let n = match r { Ok(n) => n, Err(_) => { assert!(false); return; } };
+    // array-with-cursor model: never more than remains in the file, clipped at the cluster boundary
+    let in_cluster = CS - off % CS;
+    let expect = core::cmp::min(core::cmp::min(len as u32, in_cluster), size - off);
+    assert!(n as u32 == expect);
+    assert!(f.offset == off + n as u32);
+    assert!(inv_holds(&f, &CHAIN[..m], size));
+    // the bytes come from the right device address: file position p lives at cluster chain[p / CS]
+    if n > 0 {
+        let dev_off = g.cluster_off(CHAIN[(off / CS) as usize]) + (off % CS) as u64;
+        if wa >= dev_off && wa - dev_off < n as u64 { assert!(buf[(wa - dev_off) as usize] == wv); }
+        kani::cover!(wa >= dev_off && wa - dev_off < n as u64);
+    }
+    let d = fs.disk.borrow();
+    assert!(!d.oob);
+    // C13: a read never writes to the storage and leaves nothing pending unless access-date updating is on
+    assert!(d.total_writes == 0 && d.flushes == 0);
+    let (info_dirty, flags, _, _) = fs_pending(&*fs);
+    assert!(!info_dirty && !flags.dirty());
+    let (data, _, dirty) = editor_state(f.entry.as_ref().unwrap());
+    if !update_accessed || n == 0 {
+        assert!(!dirty);
+    } else {
+        // C18: access date stamped from the time provider, only when the option is on
+        assert!(entry_raw_times(data).5 == clock.now.date.encode());
+    }
+    let last = m > 0 && (k == m - 1 || (m == 1 && k == usize::MAX));
+    let mid = m == 3 && k < 2;
+    kani::cover!(m == 0 || (n as u32 == in_cluster && in_cluster < len as u32));          // clipped at the cluster boundary
+    kani::cover!(!last || (n as u32 == size - off && size - off < in_cluster && n > 0));   // clipped at end of file
+    kani::cover!(!last || (n == 0 && len > 0));                                             // at end of file
+    kani::cover!(!mid || (off % CS == 0 && n > 0));                                         // started exactly on a boundary
+}
+macro_rules! read_case {
+    ($name:ident, $ft:expr, $m:expr, $k:expr, $acc:expr) => {
+        #[kani::proof]
+        #[kani::unwind(8)]
+        fn $name() { read_check($ft, $m, $k, $acc); }
+    };
+}
+/// C02/C13/C18: File::read from every cursor position of the first / middle / last cluster (and offset 0).
+read_case!(read16_start, FatType::Fat16, 3, usize::MAX, false);
+read_case!(read16_c0, FatType::Fat16, 3, 0, false);
+read_case!(read16_c1, FatType::Fat16, 3, 1, false);
+read_case!(read16_c2_tail, FatType::Fat16, 3, 2, false);
+read_case!(read12_c1, FatType::Fat12, 3, 1, false);
+read_case!(read32_c1_accessed, FatType::Fat32, 3, 1, true);
+read_case!(read16_single_cluster, FatType::Fat16, 1, 0, false);
+read_case!(read16_empty_file, FatType::Fat16, 0, usize::MAX, false);
+
+// ------------------------------------------------------------------------------------------- write (C02, C11, C12, C18)
+
+fn write_check(ft: FatType, m: usize, k: usize, mounted_dirty: bool) {
+    let mut g = geo(ft);
+    if mounted_dirty { g.status = 1; }
+    let mut dev = mk_dev(ft, m);
+    dev.watch_addr = kani::any();
+    dev.watch_val = kani::any();
+    let (wa, wv) = (dev.watch_addr, dev.watch_val);
+    let old_fat = dev.fat0;
+    let clock = any_clock();
+    let fs = core::mem::ManuallyDrop::new(mk_fs_plain(dev, &g, clock, false));
+    let size = any_size(m);
+    let off = any_offset(k, size);
+    let mut f = core::mem::ManuallyDrop::new(mk_file(&*fs, m, k, size, off));
+    let before_times = entry_raw_times(editor_state(f.entry.as_ref().unwrap()).0);
+    let len: usize = kani::any();
+    kani::assume(len <= 600);
+    let buf: [u8; 600] = kani::any();
+    let r = f.write(&buf[..len]);
+    let n = match r { Ok(n) => n, Err(_) => { assert!(false); return; } };
+    let in_cluster = CS - off % CS;
+    let expect = core::cmp::min(len as u32, in_cluster);
+    assert!(n as u32 == expect);
+    let d = fs.disk.borrow();
+    assert!(!d.oob && !d.overflow);
+    if n == 0 {
+        assert!(d.total_writes == 0 && f.offset == off);
+        return;
+    }
+    // which cluster receives the data: an existing one, or (at end of chain) the first free cluster, linked in
+    let idx = (off / CS) as usize;
+    let allocates = idx >= m;
+    let fresh = [2u32, 3, 5, 6][m];                 // first free cluster of the table for a file of m clusters
+    let target = if allocates { fresh } else { CHAIN[idx] };
+    let new_m = if allocates { m + 1 } else { m };
+    let chain2 = [CHAIN[0], CHAIN[1], CHAIN[2], 6];  // = chain with the fresh cluster appended, for every m
+    let new_size = core::cmp::max(size, off + n as u32);
+    assert!(f.offset == off + n as u32);
+    assert!(inv_holds(&f, &chain2[..new_m], new_size));
+    // FAT: unchanged unless allocating; then the new cluster terminates the chain and the old tail links to it
+    let wd = w(ft);
+    if allocates {
+        assert!(spec::raw(wd, &d.fat0, fresh) == spec::eoc_written(wd));
+        if m > 0 { assert!(spec::raw(wd, &d.fat0, CHAIN[m - 1]) == fresh); }
+        let c: u32 = kani::any();
+        kani::assume(c < 8 && c != fresh && (m == 0 || c != CHAIN[m - 1]));
+        assert!(spec::raw(wd, &d.fat0, c) == spec::raw(wd, &old_fat, c));
+    } else {
+        assert_same(&d.fat0, &old_fat);
+    }
+    assert_same(&d.fat0, &d.fat1);
+    // C11/C12: device writes outside the FAT: [status byte first, if the volume was clean] then exactly one payload
+    // write inside the target cluster at the cursor position
+    let dev_off = g.cluster_off(target) + (off % CS) as u64;
+    let status_off = if ft == FatType::Fat32 { 0x41 } else { 0x25 };
+    if mounted_dirty {
+        assert!(d.nw == 1);
+    } else {
+        assert!(d.nw == 2 && d.w_off[0] == status_off && d.w_len[0] == 1 && d.w_first[0] & 1 == 1);
+    }
+    let p = d.nw - 1;
+    assert!(d.w_off[p] == dev_off && d.w_len[p] == n as u64 && d.w_first[p] == buf[0]);
+    assert!(dev_off + n as u64 <= g.cluster_off(target) + CS as u64);
+    assert!(fs_pending(&*fs).1.dirty());
+    // the byte at every device address in the written range is the byte from the buffer; others keep their value
+    if wa >= dev_off && wa - dev_off < n as u64 { assert!(d.watch_val == buf[(wa - dev_off) as usize]); }
+    else if wa == status_off && !mounted_dirty { assert!(d.watch_val == d.w_first[0]); }
+    else { assert!(d.watch_val == wv); }
+    // C18: modification time stamped from the provider, creation untouched; entry marked for write-back
+    let (data, _, dirty) = editor_state(f.entry.as_ref().unwrap());
+    let t = entry_raw_times(data);
+    assert!(t.3 == clock.now.date.encode() && t.4 == clock.now.time.encode().0);
+    assert!(t.0 == before_times.0 && t.1 == before_times.1 && t.2 == before_times.2 && t.5 == before_times.5);
+    if new_size != size || allocates && m == 0 { assert!(dirty); }
+    let tail = m == 0 || k == m - 1;
+    kani::cover!(!tail || allocates);
+    kani::cover!(!tail || m == 0 || (!allocates && new_size > size));
+    kani::cover!(tail || (!allocates && new_size == size && off + (n as u32) < size));   // overwrite in the middle
+    kani::cover!(n as u32 == in_cluster && (len as u32) > in_cluster);
+    kani::cover!(wa >= dev_off && wa - dev_off < n as u64);
+}
+macro_rules! write_case {
+    ($name:ident, $ft:expr, $m:expr, $k:expr, $dirty:expr) => {
+        #[kani::proof]
+        #[kani::unwind(8)]
+        fn $name() { write_check($ft, $m, $k, $dirty); }
+    };
+}
+/// C02/C11/C12/C18: File::write at every cursor position of a cluster: in the middle of the file, extending inside
+/// the last cluster, exactly at the end on a cluster boundary (allocation), into an empty file.
+write_case!(write16_start, FatType::Fat16, 3, usize::MAX, false);
+write_case!(write16_c0, FatType::Fat16, 3, 0, false);
+write_case!(write16_c1_dirty_mount, FatType::Fat16, 3, 1, true);
+write_case!(write16_c2_tail_and_alloc, FatType::Fat16, 3, 2, false);
+write_case!(write12_c2_tail_and_alloc, FatType::Fat12, 3, 2, false);
+write_case!(write32_c2_tail_and_alloc, FatType::Fat32, 3, 2, false);
+write_case!(write16_empty_file, FatType::Fat16, 0, usize::MAX, false);
+write_case!(write12_single_cluster, FatType::Fat12, 1, 0, false);
+write_case!(write32_c0, FatType::Fat32, 2, 0, false);
+
+/// must-fail twin: claims a write never crosses into a newly allocated cluster.
+#[kani::proof]
+#[kani::unwind(8)]
+fn twin_write_never_allocates() {
+    let g = geo(FatType::Fat16);
+    let fs = core::mem::ManuallyDrop::new(mk_fs_plain(mk_dev(FatType::Fat16, 1), &g, any_clock(), false));
+    let mut f = core::mem::ManuallyDrop::new(mk_file(&*fs, 1, 0, 512, 512));
+    let _ = f.write(&[1u8; 4]);
+    assert!(fs.disk.borrow().fat_writes == 0);
+}
+
+// ------------------------------------------------------------------------------------------- seek (C02)
+
+fn seek_check(ft: FatType, m: usize, k: usize) {
+    let g = geo(ft);
+    let fs = core::mem::ManuallyDrop::new(mk_fs_plain(mk_dev(ft, m), &g, any_clock(), false));
+    let size = any_size(m);
+    let off = any_offset(k, size);
+    let mut f = core::mem::ManuallyDrop::new(mk_file(&*fs, m, k, size, off));
+    let kind: u8 = kani::any();
+    let x: i64 = kani::any();
+    let pos = match kind % 3 { 0 => SeekFrom::Start(x as u64), 1 => SeekFrom::Current(x), _ => SeekFrom::End(x) };
+    let target: i128 = match kind % 3 { 0 => (x as u64) as i128, 1 => off as i128 + x as i128, _ => size as i128 + x as i128 };
+    let r = f.seek(pos);
+    match r {
+        Ok(p) => {
+            // before the start is rejected; beyond the end clamps to the end
+            assert!(target >= 0);
+            let clamped = if target > size as i128 { size as i128 } else { target };
+            // (targets that do not fit in 32 bits are rejected rather than clamped; see the Err arm)
+            assert!(p as i128 == clamped && f.offset as u64 == p);
+            assert!(inv_holds(&f, &CHAIN[..m], size));
+        }
+        Err(Error::InvalidInput) => {
+            assert!(target < 0 || target > u32::MAX as i128);
+            assert!(f.offset == off && inv_holds(&f, &CHAIN[..m], size));
+        }
+        Err(_) => assert!(false),
+    }
+    let d = fs.disk.borrow();
+    assert!(!d.oob && d.total_writes == 0);
+    kani::cover!(r.is_ok() && target > size as i128);
+    kani::cover!(r.is_err() && target < 0);
+    kani::cover!(m == 0 || matches!(r, Ok(p) if p > 0 && p % CS as u64 == 0 && p != off as u64));   // lands exactly on a boundary
+    kani::cover!(k == usize::MAX || matches!(r, Ok(p) if p > 0 && p < off as u64));                  // backwards
+}
+macro_rules! seek_case {
+    ($name:ident, $ft:expr, $m:expr, $k:expr) => {
+        #[kani::proof]
+        #[kani::unwind(8)]
+        fn $name() { seek_check($ft, $m, $k); }
+    };
+}
+/// C02: File::seek with all three SeekFrom kinds and ANY 64-bit argument, from a cursor in each cluster.
+seek_case!(seek16_from_start, FatType::Fat16, 3, usize::MAX);
+seek_case!(seek16_from_c0, FatType::Fat16, 3, 0);
+seek_case!(seek16_from_c2, FatType::Fat16, 3, 2);
+seek_case!(seek12_from_c1, FatType::Fat12, 3, 1);
+seek_case!(seek32_from_c1, FatType::Fat32, 3, 1);
+seek_case!(seek16_empty_file, FatType::Fat16, 0, usize::MAX);
+
+// ------------------------------------------------------------------------------------------- truncate (C02, C03, C05)
+
+fn truncate_check(ft: FatType, m: usize, k: usize) {
+    let g = geo(ft);
+    let dev = mk_dev(ft, m);
+    let old_fat = dev.fat0;
+    let fs = core::mem::ManuallyDrop::new(mk_fs_plain(dev, &g, any_clock(), false));
+    let size = any_size(m);
+    let off = any_offset(k, size);
+    let mut f = core::mem::ManuallyDrop::new(mk_file(&*fs, m, k, size, off));
+    assert!(f.truncate().is_ok());
+    // everything from the cursor onward is gone: size = offset, chain = the clusters needed for `offset` bytes
+    let keep = ((off + CS - 1) / CS) as usize;
+    assert!(inv_holds(&f, &CHAIN[..keep], off));
+    let d = fs.disk.borrow();
+    assert!(!d.oob);
+    assert_same(&d.fat0, &d.fat1);
+    let wd = w(ft);
+    let mut i = 0;
+    while i < m {
+        let v = spec::raw(wd, &d.fat0, CHAIN[i]);
+        if i + 1 < keep { assert!(v == CHAIN[i + 1]); }
+        else if i + 1 == keep { assert!(spec::classify(wd, v) == 3); }
+        else { assert!(v == 0); }
+        i += 1;
+    }
+    // somebody else's cluster and the free ones are untouched
+    assert!(spec::raw(wd, &d.fat0, 4) == spec::raw(wd, &old_fat, 4) && spec::raw(wd, &d.fat0, 6) == 0 && spec::raw(wd, &d.fat0, 7) == 0);
+    // no payload write; only the status byte may be written outside the table
+    assert!(d.nw <= 1);
+    if keep < m { assert!(fs_pending(&*fs).1.dirty()); }
+    let (_, _, dirty) = editor_state(f.entry.as_ref().unwrap());
+    if off != size { assert!(dirty); }
+    kani::cover!(k == m - 1 || keep < m);
+    kani::cover!(k != m - 1 || (keep == m && off < size));
+}
+macro_rules! truncate_case {
+    ($name:ident, $ft:expr, $m:expr, $k:expr) => {
+        #[kani::proof]
+        #[kani::unwind(8)]
+        fn $name() { truncate_check($ft, $m, $k); }
+    };
+}
+/// C02/C03/C05: File::truncate at offset 0, inside / at the end of the first, middle and last cluster.
+truncate_case!(truncate16_at_zero, FatType::Fat16, 3, usize::MAX);
+truncate_case!(truncate16_c0, FatType::Fat16, 3, 0);
+truncate_case!(truncate16_c1, FatType::Fat16, 3, 1);
+truncate_case!(truncate16_c2, FatType::Fat16, 3, 2);
+truncate_case!(truncate12_c0, FatType::Fat12, 3, 0);
+truncate_case!(truncate32_c1, FatType::Fat32, 3, 1);
+truncate_case!(truncate32_at_zero, FatType::Fat32, 2, usize::MAX);
+
+// ------------------------------------------------------------------------------------------- flush / drop (C04, C13, C14)
+
+fn flush_check(via_drop: bool) {
+    let ft = crate::fs::verif::any_ft();
+    let g = geo(ft);
+    let mut dev = mk_dev(ft, 3);
+    let watch: u64 = kani::any();
+    kani::assume(watch >= ENTRY_POS && watch < ENTRY_POS + 32);
+    dev.watch_addr = watch;
+    dev.watch_val = 0xA5;
+    let fs = core::mem::ManuallyDrop::new(mk_fs_plain(dev, &g, any_clock(), false));
+    let size = any_size(3);
+    let mut f = core::mem::ManuallyDrop::new(mk_file(&*fs, 3, usize::MAX, size, 0));
+    // arbitrary pending metadata: new size, new timestamps, or nothing at all
+    let pending: bool = kani::any();
+    if pending {
+        let e = f.entry.as_mut().unwrap();
+        let ns: u32 = kani::any();
+        kani::assume(ns != size);
+        e.set_size(ns);
+        e.set_modified(crate::dir_entry::verif::any_valid_datetime());
+    }
+    let mut img = crate::verif_support::dev::TotDev::<32>::new([0; 32]);
+    assert!(editor_state(f.entry.as_ref().unwrap()).0.serialize(&mut img).is_ok());
+    if via_drop {
+        unsafe { core::mem::ManuallyDrop::drop(&mut f); }
+    } else {
+        assert!(Write::flush(&mut *f).is_ok());
+        assert!(!editor_state(f.entry.as_ref().unwrap()).2);
+    }
+    let d = fs.disk.borrow();
+    assert!(!d.oob && d.fat_writes == 0);
+    if pending {
+        // C14: the entry (size, first cluster, timestamps) is handed to the storage at its position ...
+        assert!(d.total_writes == 12 && d.w_off[0] == ENTRY_POS);
+        assert!(d.watch_val == img.data[(watch - ENTRY_POS) as usize]);
+    } else {
+        // C13: nothing pending => nothing written
+        assert!(d.total_writes == 0 && d.watch_val == 0xA5);
+    }
+    // ... and the storage is flushed AFTER the last write of the call
+    assert!(d.flushes == 1 && d.writes_at_last_flush == d.total_writes);
+    // a metadata-only write-back does not touch the dirty bit (allowed by C12)
+    assert!(!fs_pending(&*fs).1.dirty());
+    kani::cover!(pending);
+    kani::cover!(!pending);
+}
+/// C14/C13/C04: File::flush writes the pending directory entry back (exactly its 32 bytes) and then flushes the
+/// device; with nothing pending it writes nothing. Same for the destructor.
+#[kani::proof]
+#[kani::unwind(34)]
+fn flush_writes_entry_then_flushes_device() { flush_check(false); }
+#[kani::proof]
+#[kani::unwind(34)]
+fn drop_writes_entry_then_flushes_device() { flush_check(true); }
+
+/// must-fail twin: claims flush never writes.
+#[kani::proof]
+#[kani::unwind(34)]
+fn twin_flush_never_writes() {
+    let g = geo(FatType::Fat16);
+    let fs = core::mem::ManuallyDrop::new(mk_fs_plain(mk_dev(FatType::Fat16, 1), &g, any_clock(), false));
+    let mut f = core::mem::ManuallyDrop::new(mk_file(&*fs, 1, usize::MAX, 100, 0));
+    f.entry.as_mut().unwrap().set_size(7);
+    let _ = Write::flush(&mut *f);
+    assert!(fs.disk.borrow().total_writes == 0);
+}
+
+// ------------------------------------------------------------------------------------------- extents (C04, C20)
+
+fn extents_check(ft: FatType, m: usize) {
+    let g = geo(ft);
+    let fs = core::mem::ManuallyDrop::new(mk_fs_plain(mk_dev(ft, m), &g, any_clock(), false));
+    let size = any_size(m);
+    let mut f = core::mem::ManuallyDrop::new(mk_file(&*fs, m, usize::MAX, size, 0));
+    let mut it = f.extents();
+    let mut i = 0;
+    let mut total: u64 = 0;
+    while i < m {
+        match it.next() {
+            Some(Ok(e)) => {
+                assert!(e.offset == g.cluster_off(CHAIN[i]));
+                let exp = if i + 1 < m { CS } else { size - (m as u32 - 1) * CS };
+                assert!(e.size == exp);
+                total += e.size as u64;
+            }
+            _ => { assert!(false); }
+        }
+        i += 1;
+    }
+    assert!(it.next().is_none());
+    assert!(total == size as u64);
+    core::mem::forget(it);
+    assert!(fs.disk.borrow().total_writes == 0);
+}
+/// C04: File::extents lists the clusters of the chain in order at their device offsets, sizes summing to the file size.
+#[kani::proof]
+#[kani::unwind(8)]
+fn extents16() { extents_check(FatType::Fat16, 3); }
+#[kani::proof]
+#[kani::unwind(8)]
+fn extents12_two_clusters() { extents_check(FatType::Fat12, 2); }
+#[kani::proof]
+#[kani::unwind(8)]
+fn extents32_empty() { extents_check(FatType::Fat32, 0); }
